@@ -496,3 +496,74 @@ def run_loops(ctx, res, thorough):
             for k in list(sys.modules):
                 if k.split(".")[0] == pkg:
                     del sys.modules[k]
+
+
+NOTEBOOK = r"""
+import sys, json
+sys.path.insert(0, %(repo)r)
+from IPython.core.interactiveshell import InteractiveShell
+sh = InteractiveShell.instance()
+out = []
+def cell(src):
+    r = sh.run_cell(src, store_history=True)
+    if r.error_in_exec is not None or r.error_before_exec is not None:
+        out.append(["CELL-ERROR", src, repr(r.error_in_exec or r.error_before_exec)[:300]])
+cell("import dds\ndds.set_store('local', internal_dir=%(si)r, data_dir=%(sd)r)\nRES = []")
+cells = %(cells)r
+for c in cells:
+    cell(c)
+    cell("RES.append([repr(dds.keep('/nb/top', top)), repr(top())])")
+cell("import json as _j\n_OUT = _j.dumps(RES)")
+print("RESULT " + json.dumps({"pairs": json.loads(sh.user_ns.get("_OUT", "[]")), "errors": out}))
+"""
+
+NOTEBOOK_CELLS = [
+    # every cell (re)defines something; after each one the kept value of top() is compared with the plain call
+    "V = 1\ndef h():\n    return 'h1'\n",
+    "class K(object):\n    def run(self):\n        return 'run1'\n",
+    "def top():\n    return (h(), V, K().run(), [V for V in (7,)], sorted(w for w in ('a',)))\n",
+    "def h():\n    return 'h2'\n",
+    "V = 2",
+    "class K(object):\n    def run(self):\n        return 'run2'\n",
+    "def h():\n    return 'h1'\n",
+    "import functools\n@functools.lru_cache(maxsize=None)\ndef c():\n    return 'c1'\n\ndef top():\n    return (h(), V, c())\n",
+    "@functools.lru_cache(maxsize=None)\ndef c():\n    return 'c2'\n",
+    "def g(x):\n    return ('g', x, h())\n\ndef mid():\n    return dds.keep('/nb/g', g, V)\n\ndef top():\n    return (mid(), V)\n",
+    "def h():\n    return 'h3'\n",
+    "V = 3",
+]
+
+
+def run_notebook(ctx, res, thorough):
+    """the same guarantees when the code lives in IPython cells (functions, classes and variables defined and redefined cell by
+    cell): after every cell, dds.keep of the top function returns what calling it returns"""
+    import subprocess
+    base = tempfile.mkdtemp(prefix="ddsverif_c01n_")
+    try:
+        script = NOTEBOOK % {"repo": common.REPO, "si": os.path.join(base, "si"), "sd": os.path.join(base, "sd"), "cells": NOTEBOOK_CELLS}
+        try:
+            p = subprocess.run([sys.executable, "-c", script], capture_output=True, text=True, timeout=300, cwd=base)
+        except subprocess.TimeoutExpired:
+            raise common.Infra("notebook run timed out")
+        line = [l for l in p.stdout.split("\n") if l.startswith("RESULT ")]
+        if not line:
+            if "No module named 'IPython'" in p.stderr:
+                res.count("notebook_skipped_no_ipython")
+                return
+            raise common.Infra("notebook run failed: " + p.stderr[-400:])
+        ans = json.loads(line[-1][len("RESULT "):])
+        first_top = 2      # top() exists from the third cell on
+        pairs = ans["pairs"]
+        res.evaluations += len(pairs)
+        res.count("notebook_cells", len(pairs))
+        res.nontrivial("notebook")
+        for i, (kept, plain) in enumerate(pairs):
+            if kept != plain:
+                res.violations.append({"what": "IPython cells: after cell %d dds.keep('/nb/top', top) returns %s, calling top() returns %s" % (
+                    i + first_top, kept, plain), "input": {"cells": NOTEBOOK_CELLS[: i + first_top + 1]}, "kf": None})
+                break
+        real_errs = [e for e in ans["errors"] if not (e[1].startswith("RES.append") and NOTEBOOK_CELLS and "name 'top' is not defined" in e[2])]
+        if real_errs and not res.violations:
+            res.violations.append({"what": "IPython cells: a cell fails under dds: %s" % (real_errs[0],), "input": {"cells": NOTEBOOK_CELLS}, "kf": None})
+    finally:
+        shutil.rmtree(base, ignore_errors=True)
